@@ -81,6 +81,9 @@ def run_case(case):
 
     logging.disable(logging.CRITICAL)
     root = tlc.scratch_dir("co-")
+    from .. import coworld
+
+    coworld.set_alg(case.get("alg", "md5"))
     w = CoWorld(root, case["cls"], LT[case["link"]], with_state=case["state"], read_only=bool(case.get("ro")))
     fs = CoFS()
     w.fs = fs
@@ -252,6 +255,7 @@ def make_cases(gen, rng, n, focus):
         op = {"t": t, "force": force, "relink": relink, "prompt": prompt}
         # (the store class by a hash of the id: its parity is tied to `state`, which follows i % 4)
         cases.append({"id": i, "link": link, "cls": ["local", "generic"][zlib.crc32(b"cls%d" % i) % 2], "state": i % 4 != 3, "ro": i % 5 == 4,
+                      "alg": "md5-dos2unix" if zlib.crc32(b"alg%d" % i) % 6 == 0 else "md5",    # a sixth on a cache of the legacy algorithm
                       "init": {"ws": ws, "cache": cache, "dirobjs": dirobjs}, "ops": [op]})
     return cases
 
